@@ -167,8 +167,25 @@ theorem step_inv {nn ℓ : Nat} (hl : ℓ < nn) {s : St} (h : Inv nn ℓ s) (op 
         subst hm
         have h' : Inv nn m { s with held := s.held.filter (·.1 ≠ n) } :=
           ⟨h.views, h.onlyL, fun a b hab => h.heldL a b (List.mem_filter.mp hab).1⟩
-        exact localEnd_inv h'
+        have same : ∀ {t t' : St}, Inv nn m t → t'.views = t.views → t'.live = t.live → t'.held = t.held → Inv nn m t' := by
+          intro t t' ht e1 e2 e3
+          exact ⟨by rw [e1]; exact ht.views, by intro k hk; unfold liveAt; rw [e2]; exact ht.onlyL k hk,
+            by intro a b hab; rw [e3] at hab; exact ht.heldL a b hab⟩
+        split
+        · -- second release of a retry
+          exact same (localEnd_inv (same h' rfl rfl rfl)) rfl rfl rfl
+        · split
+          · -- the held call had given up
+            split
+            · split
+              · exact same h rfl rfl (by rfl) |> fun x => ⟨x.views, x.onlyL, fun a b hab => h.heldL a b (List.mem_filter.mp hab).1⟩
+              · exact same h rfl rfl rfl
+            · exact same h' rfl rfl rfl
+          · exact same (localEnd_inv h') rfl rfl rfl
       · exact h
+  | cancelHeld n =>
+    simp only [step]
+    (repeat' split) <;> first | exact h | exact ⟨h.views, h.onlyL, h.heldL⟩
   | spawn n =>
     simp only [step]
     split
